@@ -142,6 +142,7 @@ type c08Case struct {
 	Steps     int    `json:"target_steps"`
 	Exec      bool   `json:"may_execute"`
 	RecoverEx bool   `json:"recovery_runs_dkg"`
+	Family    string `json:"family,omitempty"` // "" | left (see c08_left_family.go)
 }
 
 type c08Step struct {
@@ -176,6 +177,11 @@ func c08MakeCase(idx int) c08Case {
 		// long executing histories: several epochs, so that nodes leave and are invited back
 		c.Steps = rng.Range(25, 45)
 	}
+	if idx%30 == 7 {
+		c.Family = "left"
+		c.N0 = rng.Range(3, 4)
+		c.Exec = true
+	}
 	return c
 }
 
@@ -197,8 +203,8 @@ func TestVF_C08_Histories(t *testing.T) {
 	// histories refuse packets all the time; the package's own knob is turned down so that a history stays in
 	// the millisecond range. No logic is changed.
 	backoff = 2 * time.Millisecond
-	nCases := vfPick(600, 6500)
-	par := 16
+	nCases := vfPick(500, 6000)
+	par := 20
 	base, err := os.MkdirTemp("", "vf-c08-")
 	if err != nil {
 		t.Fatal(err)
@@ -303,7 +309,11 @@ func c08RunHistory(run *vfRun, base string, c c08Case) {
 			run.Note(fmt.Sprintf("case %d: Process.Close() blocked on %v; blocked frame: %s", c.Index, blocked, vfdBlockedFrame("passToApplication", 700)))
 		}
 	}()
-	h.drive()
+	if c.Family == "left" {
+		h.driveLeft()
+	} else {
+		h.drive()
+	}
 	h.recovery()
 
 	nw.addCounters(run)
